@@ -10,6 +10,10 @@ use std::time::Duration;
 
 pub struct C07;
 
+fn level(tier: Tier) -> usize {
+    tier.pick(1, 2)
+}
+
 fn max_nodes(tier: Tier) -> usize {
     tier.pick(3, 4)
 }
@@ -19,7 +23,7 @@ impl Prop for C07 {
         "C07"
     }
     fn plan(&self, tier: Tier) -> Plan {
-        let n = programs(max_nodes(tier)).len() as u64;
+        let n = Programs::new(level(tier)).len();
         Plan {
             stages: vec![Stage {
                 name: "effects".into(),
@@ -29,7 +33,7 @@ impl Prop for C07 {
                 what: "program x (no fault | Err at the k-th handler invocation, every k)".into(),
             }],
             rule: format!(
-                "every tree with <= {} inner nodes over 16 node kinds (built-in and registered logging infix, `&&`, `=`, `+=`, registered setter, built-in and logging prefix / postfix, conditional, context call, global call, list, map) in 4 leaf styles (context-function calls, bare-name context functions, mixed with true / false conditions), plus all two-statement chains; \
+                "every tree with <= 3 inner nodes over 16 node kinds (at the thorough tier also every tree with exactly 4 inner nodes over the 10 logging / assigning kinds; this run: max {} nodes) (built-in and registered logging infix, `&&`, `=`, `+=`, registered setter, built-in and logging prefix / postfix, conditional, context call, global call, list, map) in 4 leaf styles (context-function calls, bare-name context functions, mixed with true / false conditions), plus all two-statement chains; \
                  for each program every handler invocation index k gets an injected Err. Oracle: call log (names and argument values), result and final bindings equal the reference evaluator's (left-to-right post-order, selected branch only, truncated at the fault). non-trivial = >= 1 handler invocation, distinct = distinct program",
                 max_nodes(tier)
             ),
@@ -41,9 +45,10 @@ impl Prop for C07 {
     }
     fn run(&self, tier: Tier, _stage: usize, a: u64, b: u64, out: &mut WorkerOut) {
         let world = install();
-        let progs = programs(max_nodes(tier));
+        let progs = Programs::new(level(tier));
         for i in a..b {
-            let ast = &progs[i as usize];
+            out.idx = Some(i);
+            let ast = &progs.get(i);
             let text = print_program(ast, &world);
             let key = shape_key(ast, &world.ops);
             let case = format!("effects|{}", show(&text));
@@ -73,7 +78,7 @@ impl Prop for C07 {
     }
     fn case_text(&self, tier: Tier, _stage: usize, i: u64) -> String {
         let world = install();
-        show(&print_program(&programs(max_nodes(tier))[i as usize], &world))
+        show(&print_program(&Programs::new(level(tier)).get(i), &world))
     }
     fn min_outcomes(&self) -> usize {
         2
